@@ -251,8 +251,12 @@ type model struct {
 	buffer    [][2]*types.Vote
 	reported  [][2]*types.Vote // every pair of conflicting votes consensus ever reported
 	// committed items in commit order; blind = committed through Update alone while not pending in this pool
+	// gossip: evidence that entered through AddEvidence or from consensus and is therefore broadcast to peers; it must
+	// stay in the broadcast list (EvidenceFront/Next) until committed or expired — across restarts too
+	gossip        map[string]bool
 	committedList []*mItem
 	blind         map[string]bool
+	bigRestarts   int // restarts with more pending evidence than fits one block (Evidence.MaxBytes)
 	blindCommits  int
 	blindReoffers int
 	drift     int // upper bound of the tolerated Size() excess (known finding kfSizeDrift only)
@@ -370,6 +374,26 @@ func (m *model) listVerdict(list []*mItem, lenientExpired bool) (ok bool, why st
 	return true, why, undecided
 }
 
+// fitBytes drops items from the end of a block's evidence list until it respects Evidence.MaxBytes (a block that
+// exceeds it is invalid for reasons outside this property: state.validateBlock).
+func fitBytes(list []*mItem, max int64) []*mItem {
+	for len(list) > 0 {
+		var pb tmproto.EvidenceList
+		for _, x := range list {
+			p, err := types.EvidenceToProto(x.ev)
+			if err != nil {
+				return nil
+			}
+			pb.Evidence = append(pb.Evidence, *p)
+		}
+		if int64(pb.Size()) <= max {
+			break
+		}
+		list = list[:len(list)-1]
+	}
+	return list
+}
+
 func evList(list []*mItem) types.EvidenceList {
 	l := make(types.EvidenceList, len(list))
 	for i, x := range list {
@@ -484,6 +508,7 @@ func (m *model) invariant(t *rapid.T) {
 			m.fatalf(t, "pending evidence vanished without being committed or expired: %s@%d %s", x.it, x.h, describeEv(x.ev))
 		}
 		delete(m.pending, h)
+		delete(m.gossip, h)
 		m.expiries++
 		m.log("   (expired and pruned: %s@%d)", x.it, x.h)
 	}
@@ -503,6 +528,11 @@ func (m *model) invariant(t *rapid.T) {
 		}
 		inList[h] = true
 	}
+	for h := range m.gossip {
+		if x := m.pending[h]; x != nil && !inList[h] {
+			m.fatalf(t, "pending evidence that was being broadcast is no longer in the broadcast list: %s@%d %s", x.it, x.h, describeEv(x.ev))
+		}
+	}
 }
 
 func TestLifecycle(t *testing.T) {
@@ -511,7 +541,7 @@ func TestLifecycle(t *testing.T) {
 		w := newWorld(t)
 		defer w.c.Close()
 		m := &model{w: w, db: dbm.NewMemDB(), byContent: map[string]*mItem{}, pending: map[string]*mItem{}, committed: map[string]bool{},
-			blind: map[string]bool{}}
+			blind: map[string]bool{}, gossip: map[string]bool{}}
 		m.pool = w.newPool(t, m.db)
 		w.c.SetEvidencePool(m.pool)
 		kinds := map[string]bool{}
@@ -536,10 +566,13 @@ func TestLifecycle(t *testing.T) {
 					if dup {
 						continue
 					}
+					list = append(list, x)
+				}
+				list = fitBytes(list, w.maxBytes)
+				for _, x := range list {
 					if m.pending[x.hash] == nil {
 						blind++
 					}
-					list = append(list, x)
 				}
 				if len(list) > 0 && rapid.Bool().Draw(t, "otherpool") {
 					// the block was validated by ANOTHER pool instance on the same stores (e.g. before the evidence DB
@@ -581,6 +614,7 @@ func TestLifecycle(t *testing.T) {
 					}
 				}
 			}
+			list = fitBytes(list, w.maxBytes)
 			if len(list) > 0 && mode == "validated" {
 				// consensus validates the block's evidence (BlockExecutor.ValidateBlock -> CheckEvidence) when it
 				// prevotes and once more when it finalizes the commit; ApplyBlock itself only calls Update.
@@ -598,7 +632,7 @@ func TestLifecycle(t *testing.T) {
 				m.fatalf(t, "ApplyBlock with evidence %s failed: %v", names(list), err)
 			}
 			if plan.Params != nil {
-				m.log("   (evidence params now: MaxAgeNumBlocks=%d MaxAgeDuration=%s)", w.maxBlocks, w.maxDur)
+				m.log("   (evidence params now: MaxAgeNumBlocks=%d MaxAgeDuration=%s MaxBytes=%d)", w.maxBlocks, w.maxDur, w.maxBytes)
 			}
 			tip := w.tip()
 			// conflicting votes whose height is now decided become pending
@@ -615,12 +649,14 @@ func TestLifecycle(t *testing.T) {
 				x := m.intern(item{ev: dve, kind: "dve", pert: "reported"}, dve)
 				if m.pending[x.hash] == nil && !m.committed[x.hash] {
 					m.pending[x.hash] = x
+					m.gossip[x.hash] = true
 					m.reportsFlushed++
 				}
 			}
 			m.buffer = nil
 			for _, x := range list {
 				delete(m.pending, x.hash)
+				delete(m.gossip, x.hash)
 				if !m.committed[x.hash] {
 					m.committedList = append(m.committedList, x)
 				}
@@ -671,6 +707,7 @@ func TestLifecycle(t *testing.T) {
 						m.fatalf(t, "AddEvidence rejected valid, fresh, new evidence %s: %v\n %s", x.it, err, describeEv(x.ev))
 					}
 					m.pending[x.hash] = x
+					m.gossip[x.hash] = true
 					kinds["admitted:"+x.it.kind] = true
 				default:
 					if err == nil {
@@ -747,7 +784,7 @@ func TestLifecycle(t *testing.T) {
 				// what CreateProposalBlock does: take PendingEvidence(maxBytes) as the block's evidence; every validator
 				// (this node included) then validates exactly that list. Whatever the pool hands out is judged like any
 				// other block content: accepted <=> valid, fresh, uncommitted, unrepeated.
-				max := rapid.SampledFrom([]int64{-1, 1 << 20, 3000, 800}).Draw(t, "maxb")
+				max := rapid.SampledFrom([]int64{w.maxBytes, w.maxBytes, -1, 3000, 800}).Draw(t, "maxb")
 				got, _ := m.pool.PendingEvidence(max)
 				if len(got) == 0 {
 					t.Skip("nothing pending")
@@ -769,7 +806,9 @@ func TestLifecycle(t *testing.T) {
 			"pending": func(t *rapid.T) {
 				all, total := m.pool.PendingEvidence(-1)
 				max := int64(-1)
-				switch rapid.SampledFrom([]string{"zero", "tiny", "below", "exact", "half", "all"}).Draw(t, "max") {
+				switch rapid.SampledFrom([]string{"zero", "tiny", "below", "exact", "half", "all", "params"}).Draw(t, "max") {
+				case "params":
+					max = w.maxBytes // what CreateProposalBlock asks for
 				case "zero":
 					max = 0
 				case "tiny":
@@ -811,6 +850,9 @@ func TestLifecycle(t *testing.T) {
 				m.buffer = nil // votes not yet turned into evidence live in memory only
 				m.drift = 0
 				m.restarts++
+				if _, total := m.pool.PendingEvidence(-1); total > w.maxBytes {
+					m.bigRestarts++
+				}
 				m.log("restart")
 			},
 		})
@@ -824,7 +866,7 @@ func TestLifecycle(t *testing.T) {
 		cls := []string{fmt.Sprintf("commits:%d", min(m.commits, 3)), fmt.Sprintf("reoffers-of-committed:%d", min(m.reoffers, 3)),
 			fmt.Sprintf("expiries:%d", min(m.expiries, 3)), fmt.Sprintf("restarts:%d", min(m.restarts, 2)),
 			fmt.Sprintf("reports-flushed:%d", min(m.reportsFlushed, 3)), fmt.Sprintf("lists-with-repeats:%d", min(m.dupLists, 2)),
-			fmt.Sprintf("evidence-param-changes:%d", min(w.paramChanges, 3)), fmt.Sprintf("commits-never-pending:%d", min(m.blindCommits, 3)), fmt.Sprintf("reoffers-of-never-pending-committed:%d", min(m.blindReoffers, 3))}
+			fmt.Sprintf("evidence-param-changes:%d", min(w.paramChanges, 3)), fmt.Sprintf("restarts-with-more-pending-than-maxbytes:%d", min(m.bigRestarts, 2)), fmt.Sprintf("commits-never-pending:%d", min(m.blindCommits, 3)), fmt.Sprintf("reoffers-of-never-pending-committed:%d", min(m.blindReoffers, 3))}
 		cls = append(cls, ks...)
 		lib.Case(name, lib.FP(strings.Join(m.ops, ";")), nontrivial, cls...)
 		if nontrivial && lib.WantSample(name) {
